@@ -626,6 +626,7 @@ def run_ctrl(ctx, case):
   it = iter(src)
   direct = iter(cs) if mode == "both" else None
   current = init
+  pending = []
   k = 0
   nread = 0
   for step in steps:
@@ -637,23 +638,34 @@ def run_ctrl(ctx, case):
         ctx.count("control:assigned-before-first-read")
       continue
     if step[0] in ("peek", "take", "copy"):
-      # reads through the methods of the ControlStream itself: every one of
-      # them is a read of "the value most recently assigned" (a peek removes
-      # nothing - and must not freeze what later reads see)
+      # reads through the Stream methods of the ControlStream.  peek and copy
+      # are tee copies (C03): a sample they have produced is the same sample
+      # for the ControlStream itself later on.  So sample i carries the value
+      # most recently assigned when it was *produced* - by whoever read it
+      # first; `pending` holds the samples produced but not yet taken.
       n = step[1]
+      k_items = 1 if n is None else n
+      while len(pending) < k_items:
+        pending.append(current)
       if step[0] == "copy":
-        cs.copy().take(n)          # a copy that reads ahead (not judged)
+        cs.copy().take(n)          # a copy that reads ahead
         ctx.count("control:copy-read-ahead")
         continue
       got = cs.peek(n) if step[0] == "peek" else cs.take(n)
-      want = current if n is None else [current] * n
+      want = pending[0] if n is None else pending[:n]
+      if step[0] == "take":
+        del pending[:k_items]
       ctx.count("control:method-" + step[0])
+      if any(v is not current and v != current for v in
+             ([want] if n is None else want)):
+        ctx.count("control:sample-produced-before-the-last-assignment")
       same = (got is want) or (type(got) is type(want) and got == want)
       if n is not None and same:
         same = all((g is w) or type(g) is type(w) for g, w in zip(got, want))
       if not same:
-        ctx.violation("control/%s-not-last-assigned" % step[0], case,
-                      mode=mode, got=got, want=want, last_assigned=current)
+        ctx.violation("control/%s-differs-from-the-produced-samples" % step[0],
+                      case, mode=mode, got=got, want=want,
+                      last_assigned=current)
         return True
       continue
     n = step[1]
@@ -736,6 +748,7 @@ def finish(ctx):
   ctx.need("control:method-peek", 300)
   ctx.need("control:method-take", 300)
   ctx.need("control:copy-read-ahead", 100)
+  ctx.need("control:sample-produced-before-the-last-assignment", 50)
 
 
 # extension family (bug hunt), see props/c16_x.py
